@@ -94,6 +94,32 @@ fn check_loaded(kp: &KeyPair, want_alg: Alg, z_spki: &[u8], z_raw: &[u8], what: 
         f.push(Finding::new("KEY-ALGORITHM", what, format!("loaded as {:?}, expected {}", kp.algorithm(), want_alg.name())));
         return;
     }
+    // what the key hands out as its serialisation is PKCS#8 (that is what serialize_der documents and serialize_pem
+    // labels), whatever form it was loaded from, and the PKCS#8-only loader and OpenSSL take it back as the same key
+    {
+        let der = kp.serialize_der();
+        let pkcs8 = refmodel::x509::lenient_tree(&der).map(|n| n.children.len() >= 3 && n.children[0].is_univ(refmodel::der::T_INTEGER) && n.children[1].is_univ(refmodel::der::T_SEQUENCE) && n.children[2].is_univ(refmodel::der::T_OCTETSTRING)).unwrap_or(false);
+        if !pkcs8 {
+            f.push(Finding::new("KEY-SERIALIZED-FORM", what, "serialize_der() of the loaded key is not a PKCS#8 PrivateKeyInfo (version, algorithm, OCTET STRING)"));
+        } else {
+            match guarded(|| KeyPair::from_pkcs8_der_and_sign_algo(&PrivatePkcs8KeyDer::from(der.clone()), kp.algorithm())) {
+                Ok(Ok(k2)) => {
+                    if k2.der_bytes() != kp.der_bytes() {
+                        f.push(Finding::new("KEY-SERIALIZED-FORM", what, "the serialised key reloads as another key"));
+                    }
+                }
+                other => f.push(Finding::new("KEY-SERIALIZED-FORM", what, format!("from_pkcs8_der_and_sign_algo refuses serialize_der() of the loaded key: {:?}", other.map(|r| r.map(|_| ()))))),
+            }
+            match ossl_private(&der) {
+                Ok(pk) => {
+                    if pk.public_key_to_der().ok().as_deref() != Some(z_spki) {
+                        f.push(Finding::new("KEY-SERIALIZED-FORM", what, "OpenSSL derives another public key from serialize_der()"));
+                    }
+                }
+                Err(e) => f.push(Finding::new("KEY-SERIALIZED-FORM", what, format!("OpenSSL cannot read serialize_der() as PKCS#8: {}", e))),
+            }
+        }
+    }
     // the key's own statements about which algorithms it goes with
     for a in backend_algs() {
         let ra = rc_alg(a).unwrap();
